@@ -65,6 +65,8 @@ def _monomers_to_linear_nx_graph(monomers):
     """
     seq_graph = nx.Graph()
     mon_range = range(0, len(monomers))
+    # a single monomer has no edges but still is a node
+    seq_graph.add_nodes_from(mon_range)
     seq_graph.add_edges_from(zip(mon_range[:-1], mon_range[1:]))
     nx.set_node_attributes(seq_graph, dict(zip(seq_graph.nodes, monomers)), "resname")
     nx.set_node_attributes(seq_graph, {node: node+1 for node in seq_graph.nodes}, "resid")
